@@ -200,7 +200,7 @@ func c01Property(t *rapid.T, rec *evid.Rec, st *stack.Stack, sc stackCase, maxSt
 			exp := model.Apply(c, now)
 			got, err := ses.client(c.Port).Do(c)
 			if err != nil {
-				undecided(t, rec, fmt.Sprintf("C01 %s step %d %s: %v", sc, i, c, err))
+				undecidedOrHang(t, rec, st, ses.client(c.Port), err, fmt.Sprintf("C01 %s step %d %s: %v", sc, i, c, err))
 			}
 			if msg := compare(c, sc.Binary, exp, got); msg != "" {
 				fail(i, c, msg)
@@ -231,7 +231,7 @@ func c01Property(t *rapid.T, rec *evid.Rec, st *stack.Stack, sc stackCase, maxSt
 			exp := model.Apply(c, now)
 			got, err := ses.client(0).Do(c)
 			if err != nil {
-				undecided(t, rec, fmt.Sprintf("C01 %s final scan: %v", sc, err))
+				undecidedOrHang(t, rec, st, ses.client(0), err, fmt.Sprintf("C01 %s final scan: %v", sc, err))
 			}
 			if msg := compare(c, sc.Binary, exp, got); msg != "" {
 				fail(n, c, "final scan: "+msg)
